@@ -1,0 +1,59 @@
+//go:build verif
+
+package xmaps
+
+// Contracts for the deductive verifier in /verif (property C19). Only part of the build under the
+// tag `verif`. has(m, k) is key membership of a Go map, m[k] its value; a `for k := range m` loop
+// visits the keys present at loop entry once each in an arbitrary order, with the ghost set
+// visited<loop> of keys seen so far.
+
+//@ func ToIndex
+//@   props C19
+//@   loop 0: invariant m != nil && fresh(m)
+//@   loop 0: invariant forall k K {has(m, k)} :: has(m, k) <==> (exists t int :: 0 <= t && t < idx0 && keys[t] == k)
+//@   loop 0: invariant forall k K {m[k]} :: has(m, k) ==> 0 <= m[k] && m[k] < idx0 && keys[m[k]] == k && (forall t int {keys[t]} :: m[k] < t && t < idx0 ==> keys[t] != k)
+//@   ensures result != nil && fresh(result)
+//@   ensures forall t int {keys[t]} :: 0 <= t && t < len(keys) ==> has(result, keys[t])
+//@   ensures forall k K {result[k]} :: has(result, k) ==> 0 <= result[k] && result[k] < len(keys) && keys[result[k]] == k && (forall t int {keys[t]} :: result[k] < t && t < len(keys) ==> keys[t] != k)
+
+//@ func FromKeysAndValues
+//@   props C19
+//@   panics when len(keys) != len(values)
+//@   loop 0: invariant m != nil && fresh(m)
+//@   loop 0: invariant forall k K {has(m, k)} :: has(m, k) <==> (exists t int :: 0 <= t && t < idx0 && keys[t] == k)
+//@   loop 0: invariant forall k K {m[k]} :: has(m, k) ==> (exists t int :: 0 <= t && t < idx0 && keys[t] == k && m[k] == values[t] && (forall u int {keys[u]} :: t < u && u < idx0 ==> keys[u] != k))
+//@   loop 0: invariant allOk <==> (forall t int, u int {keys[t], keys[u]} :: 0 <= t && t < u && u < idx0 ==> keys[t] != keys[u])
+//@   ensures result0 != nil && fresh(result0)
+//@   ensures forall t int {keys[t]} :: 0 <= t && t < len(keys) ==> has(result0, keys[t])
+//@   ensures forall k K {result0[k]} :: has(result0, k) ==> (exists t int :: 0 <= t && t < len(keys) && keys[t] == k && result0[k] == values[t] && (forall u int {keys[u]} :: t < u && u < len(keys) ==> keys[u] != k))
+//@   ensures result1 <==> (forall t int, u int {keys[t], keys[u]} :: 0 <= t && t < u && u < len(keys) ==> keys[t] != keys[u])
+
+//@ func Set.Add
+//@   props C19
+//@   requires s != nil
+//@   modifies mapof(s)
+//@   ensures has(s, item) && (forall k T {has(s, k)} :: k != item ==> (has(s, k) <==> old(has(s, k))))
+
+//@ func Set.Remove
+//@   props C19
+//@   modifies mapof(s)
+//@   ensures !has(s, item) && (forall k T {has(s, k)} :: k != item ==> (has(s, k) <==> old(has(s, k))))
+
+//@ func Set.Contains
+//@   props C19
+//@   ensures result <==> (s != nil && has(s, item))
+
+//@ func SetFromSlice
+//@   props C19
+//@   loop 0: invariant result != nil && fresh(result)
+//@   loop 0: invariant forall k T {has(result, k)} :: has(result, k) <==> (exists t int :: 0 <= t && t < idx0 && items[t] == k)
+//@   ensures result != nil && fresh(result)
+//@   ensures forall t int {items[t]} :: 0 <= t && t < len(items) ==> has(result, items[t])
+//@   ensures forall k T {has(result, k)} :: has(result, k) ==> (exists t int :: 0 <= t && t < len(items) && items[t] == k)
+
+//@ func Difference
+//@   props C19
+//@   loop 0: invariant result != nil && fresh(result) && result != a && result != b
+//@   loop 0: invariant forall k T {has(result, k)} :: has(result, k) <==> (visited0[k] && (b == nil || !has(b, k)))
+//@   ensures result != nil && fresh(result)
+//@   ensures forall k T {has(result, k)} :: has(result, k) <==> (a != nil && has(a, k) && (b == nil || !has(b, k)))
